@@ -19,37 +19,89 @@ Proof. induction fs as [|[p [|] [ra|]|lv d] t IH]; cbn [erase call_tail]; try re
 Lemma call_tail_fr_eq fs fs' : erase fs = erase fs' -> call_tail fs = call_tail fs'.
 Proof. intros H. rewrite <- (call_tail_erase fs), <- (call_tail_erase fs'), H. reflexivity. Qed.
 
-(* every loop frame of the routine in progress was opened on the present stack *)
+(* the loop frames of the routine in progress: each was opened on a stack no longer than the present one, the inner loops on stacks
+   no shorter than the outer ones (a loop over lights keeps the names still to visit on the stack while its body runs) *)
 Fixpoint depth_ok (fs : frames) (z : Z) : Prop :=
   match fs with
-  | FLoop _ d :: r => d = z /\ depth_ok r z
+  | FLoop _ d :: r => d <= z /\ depth_ok r d
   | _ => True
   end.
-Lemma depth_ok_erase fs z : depth_ok (erase fs) z <-> depth_ok fs z.
-Proof. induction fs as [|[p [|] ra|lv d] t IH]; cbn [erase depth_ok]; try tauto. Qed.
+Lemma depth_ok_erase fs : forall z, depth_ok (erase fs) z <-> depth_ok fs z.
+Proof. induction fs as [|[p [|] ra|lv d] t IH]; intros z; cbn [erase depth_ok]; try tauto. rewrite (IH d). tauto. Qed.
 Lemma depth_ok_fr_eq fs fs' z : erase fs = erase fs' -> depth_ok fs z -> depth_ok fs' z.
 Proof. intros H Hd. apply depth_ok_erase. rewrite <- H. apply depth_ok_erase. exact Hd. Qed.
+Lemma depth_ok_le fs : forall z z', z <= z' -> depth_ok fs z -> depth_ok fs z'.
+Proof. destruct fs as [|[p b ra|lv d] t]; intros z z' Hle H; cbn [depth_ok] in *; try exact I. split; [lia|tauto]. Qed.
 
-(* RETURN: the loop frames go, the stack is cut back to where the outermost of them was opened (the present stack), the
-   call frame goes, control goes on behind the call *)
-Lemma unwind_call_tail fs z d0 ret F : call_tail fs = Some (ret, F) -> depth_ok fs z -> (d0 = None \/ d0 = Some z) ->
-  exists p d, unwind fs d0 = (FCall p true (Some ret) :: F, d) /\ (d = None \/ d = Some z).
+(* RETURN: the loop frames go, the stack is cut back to where the outermost of them was opened, the call frame goes, control goes
+   on behind the call *)
+Fixpoint outer_depth (fs : frames) (d0 : option Z) : option Z :=
+  match fs with
+  | FLoop _ d :: r => outer_depth r (Some d)
+  | _ => d0
+  end.
+Definition ret_stack (fs : frames) (stk : list value) : list value :=
+  match outer_depth fs None with Some d => truncate_to stk d | None => stk end.
+
+Lemma unwind_outer fs : forall d0, snd (unwind fs d0) = outer_depth fs d0.
+Proof. induction fs as [|[p b ra|lv d] t IH]; intros d0; cbn [unwind outer_depth snd]; try reflexivity. apply IH. Qed.
+Lemma unwind_call_tail fs ret F : forall d0, call_tail fs = Some (ret, F) -> exists p, fst (unwind fs d0) = FCall p true (Some ret) :: F.
 Proof.
-  revert d0. induction fs as [|[p [|] [ra|]|lv dd] t IH]; cbn [call_tail depth_ok unwind]; intros d0 H Hd H0; try discriminate.
-  - injection H as H1 H2. subst ra t. exists p, d0. split; [reflexivity|exact H0].
-  - destruct Hd as [-> Hd]. apply (IH (Some z) H Hd). right. reflexivity.
+  induction fs as [|[p [|] [ra|]|lv dd] t IH]; cbn [call_tail unwind]; intros d0 H; try discriminate.
+  - injection H as H1 H2. subst ra t. exists p. reflexivity.
+  - exact (IH (Some dd) H).
 Qed.
+Lemma outer_depth_erase fs : forall d0, outer_depth (erase fs) d0 = outer_depth fs d0.
+Proof. induction fs as [|[p [|] ra|lv d] t IH]; intros d0; cbn [erase outer_depth]; try reflexivity. apply IH. Qed.
+Lemma ret_stack_fr_eq fs fs' stk : erase fs = erase fs' -> ret_stack fs stk = ret_stack fs' stk.
+Proof. intros H. unfold ret_stack. rewrite <- (outer_depth_erase fs), <- (outer_depth_erase fs'), H. reflexivity. Qed.
 
 Lemma truncate_own (k : list value) : truncate_to k (zlength k) = k.
 Proof. destruct k as [|v k]; cbn [truncate_to]; [reflexivity|]. rewrite Z.leb_refl. reflexivity. Qed.
+Lemma truncate_over (extra k : list value) d : d <= zlength k -> truncate_to (extra ++ k) d = truncate_to k d.
+Proof.
+  intros Hd. induction extra as [|v e IH]; [reflexivity|]. cbn [app truncate_to].
+  assert (H : (zlength (v :: e ++ k) <=? d) = false) by (apply Z.leb_gt; unfold zlength in *; cbn [length]; rewrite app_length; lia).
+  rewrite H. exact IH.
+Qed.
+Lemma truncate_extra (extra k : list value) : truncate_to (extra ++ k) (zlength k) = k.
+Proof. rewrite truncate_over by lia. apply truncate_own. Qed.
+
+(* with loops around: the outermost depth is that of the outermost loop frame, whatever lies above it *)
+Lemma outer_depth_some fs : forall d0 d1, outer_depth fs (Some d0) = outer_depth fs (Some d1) \/ (outer_depth fs (Some d0) = Some d0 /\ outer_depth fs (Some d1) = Some d1).
+Proof. destruct fs as [|[p b ra|lv d] t]; intros d0 d1; cbn [outer_depth]; try (right; split; reflexivity). left. reflexivity. Qed.
+Lemma outer_depth_none fs d : outer_depth fs None = None -> outer_depth fs (Some d) = Some d.
+Proof. destruct fs as [|[p b ra|lv d'] t]; cbn [outer_depth]; intros H; try reflexivity. exfalso. revert H. generalize d'. induction t as [|[p b ra|lv2 d2] t2 IH]; intros d3; cbn [outer_depth]; try discriminate. apply IH. Qed.
+Lemma outer_depth_inner fs d d' : outer_depth fs None = Some d' -> outer_depth fs (Some d) = Some d'.
+Proof. destruct fs as [|[p b ra|lv d2] t]; cbn [outer_depth]; intros H; try discriminate. exact H. Qed.
+Lemma outer_depth_le fs : forall z d, depth_ok fs z -> outer_depth fs None = Some d -> d <= z.
+Proof.
+  induction fs as [|[p b ra|lv d2] t IH]; cbn [outer_depth depth_ok]; intros z d Hd H; try discriminate.
+  destruct Hd as [Hle Hd]. destruct (outer_depth t None) as [d3|] eqn:E.
+  - rewrite (outer_depth_inner t d2 d3 E) in H. injection H as <-. pose proof (IH d2 d3 Hd eq_refl). lia.
+  - rewrite (outer_depth_none t d2 E) in H. injection H as <-. exact Hle.
+Qed.
+
+(* inside a loop opened on the stack stk (names of a loop over lights may lie above it): RETURN leaves what it would have left there *)
+Lemma ret_stack_in_loop lv r extra fs stk : erase r = erase fs -> depth_ok fs (zlength stk) ->
+  ret_stack (FLoop lv (zlength stk) :: r) (extra ++ stk) = ret_stack fs stk.
+Proof.
+  intros He Hd. unfold ret_stack. cbn [outer_depth]. rewrite <- (outer_depth_erase r), He, outer_depth_erase.
+  destruct (outer_depth fs None) as [d|] eqn:E.
+  - rewrite (outer_depth_inner fs (zlength stk) d E). apply truncate_over. exact (outer_depth_le fs (zlength stk) d Hd E).
+  - rewrite (outer_depth_none fs (zlength stk) E). apply truncate_extra.
+Qed.
+Lemma depth_ok_in_loop lv r (extra : list value) fs (stk : list value) : erase r = erase fs -> depth_ok fs (zlength stk) -> depth_ok (FLoop lv (zlength stk) :: r) (zlength (extra ++ stk)).
+Proof.
+  intros He Hd. cbn [depth_ok]. split; [unfold zlength; rewrite app_length; lia|]. exact (depth_ok_fr_eq fs r _ (eq_sym He) Hd).
+Qed.
 
 Lemma do_return_steps s ret F :
-  call_tail (m_frames s) = Some (ret, F) -> depth_ok (m_frames s) (zlength (m_stack s)) ->
-  do_return s = Next (with_pc (with_stack (with_frames s F) (m_stack s)) ret) [].
+  call_tail (m_frames s) = Some (ret, F) ->
+  do_return s = Next (with_pc (with_stack (with_frames s F) (ret_stack (m_frames s) (m_stack s))) ret) [].
 Proof.
-  intros Hc Hd. unfold do_return.
-  destruct (unwind_call_tail (m_frames s) (zlength (m_stack s)) None ret F Hc Hd (or_introl eq_refl)) as (p & d & Hu & Hdd).
-  rewrite Hu. destruct Hdd as [-> | ->]; [reflexivity|]. rewrite truncate_own. reflexivity.
+  intros Hc. unfold do_return, ret_stack. destruct (unwind_call_tail (m_frames s) ret F None Hc) as (p & Hu).
+  pose proof (unwind_outer (m_frames s) None) as Ho. destruct (unwind (m_frames s) None) as [fs d]. cbn [fst snd] in *. subst fs. rewrite <- Ho. reflexivity.
 Qed.
 
 Lemma not_builtin f : builtin_params f builtin_table = None -> is_builtin f = false.
